@@ -8,3 +8,31 @@ Theorem C12_root_sound :
   forall orbit t p, nonempty_branches t = true -> has_root t = Always -> Lang orbit t p -> starts_sep p = true.
 Proof. exact root_sound. Qed.
 Print Assumptions C12_root_sound.
+
+From WaxModel Require Import Query.
+From WaxProofs Require Import SemanticFacts.
+
+(* the breadth-first search behind has_semantic_literals reaches every component at every nesting depth: whenever some
+   component of the expression - directly, or inside any branch of any alternation or repetition - is spelled entirely
+   with literals whose text is `.` or `..`, the query answers true (no fuel condition: the model's fuel is proved adequate) *)
+Theorem C12_semantic_literals_found :
+  forall t, has_sem (components (concatenation t)) -> has_semantic_literals t = true.
+Proof. exact semantic_literals_found. Qed.
+Print Assumptions C12_semantic_literals_found.
+
+(* the premise is satisfiable below two levels of nesting: a/{b,<c/..>} *)
+Example C12_semantic_nonvacuous :
+  let sp := (0%N, 0%N) in
+  let lit s := TLeaf sp (LLit false s) in
+  let inner := TCat sp [lit [99%N]; TLeaf sp LSep; lit [DOT; DOT]] in
+  let alt := TAlt sp [TCat sp [lit [98%N]]; TCat sp [TRep sp inner 1%N None]] in
+  let t := TCat sp [lit [97%N]; TLeaf sp LSep; alt] in
+  has_sem (components (concatenation t)) /\ has_semantic_literals t = true.
+Proof.
+  cbv zeta. split; [|vm_compute; reflexivity].
+  eapply hs_deeper; [right; left; reflexivity|vm_compute; reflexivity|left; reflexivity|reflexivity|].
+  eapply hs_deeper; [left; reflexivity|vm_compute; reflexivity|right; left; reflexivity|reflexivity|].
+  eapply hs_deeper; [left; reflexivity|vm_compute; reflexivity|left; reflexivity|reflexivity|].
+  eapply hs_deeper; [left; reflexivity|vm_compute; reflexivity|left; reflexivity|reflexivity|].
+  eapply hs_here; [right; left; reflexivity|vm_compute; reflexivity|vm_compute; reflexivity].
+Qed.
